@@ -592,6 +592,63 @@ def check_annot(ctx) -> None:
         ctx.ok("C10.annot", fn, st, f"{len(cases)} merge cases: identifiers are compared as list elements, never as substrings; duplicates collapse")
 
 
+def check_replace_defaults(ctx) -> None:
+    """Writer and reader give `f_replace` the same meaning: the public entry points default to the same table and
+    None / {} mean 'no replacement' on both sides (no function turns None into the default table)."""
+    prog = ctx.prog
+    entries = [prog.func(MOD, "read_sbml_model"), prog.func(MOD, "write_sbml_model"), prog.func(MOD, "_sbml_to_model"), prog.func(MOD, "_model_to_sbml")]
+    public = {}
+    for fn in entries:
+        d = fn.param_default("f_replace")
+        public[fn.short] = norm(d) if d is not None else None
+        rebinds = [n for n in walk_local(fn.node) if isinstance(n, ast.Assign) and any(isinstance(t, ast.Name) and t.id == "f_replace" for t in n.targets)]
+        bad = [n for n in rebinds if not (isinstance(n.value, ast.Dict) and not n.value.keys)]
+        if bad:
+            ctx.bad("C10.kinds", fn, bad[0], f"{fn.short} replaces the caller's f_replace (`{norm(bad[0])}`): None and {{}} are documented as 'no replacement' and the other direction honours that, so identifiers written without replacement come back clipped and unescaped (or the reverse)")
+        else:
+            ctx.ok("C10.kinds", fn, fn.node.args, "f_replace is used as given (None / {} = no replacement)", nontrivial=False)
+    if public["read_sbml_model"] == public["write_sbml_model"] == "F_REPLACE":
+        ctx.ok("C10.kinds", entries[0], entries[0].node.args, "reader and writer default to the same replacement table")
+    else:
+        ctx.bad("C10.kinds", entries[0], entries[0].node.args, f"reader and writer have different f_replace defaults ({public['read_sbml_model']} / {public['write_sbml_model']}): a default round trip does not undo its own replacements")
+
+
+def check_numeric_getters(ctx) -> None:
+    """A number read from the document is taken as it is: `getX() or default` would turn an explicit 0 into the default."""
+    fn = ctx.prog.func(MOD, "_sbml_to_model")
+    numeric = {"getCharge", "getValue", "getStoichiometry", "getCoefficient"}
+    n_sites = 0
+    for f in [fn] + list(fn.nested.values()):
+        for n in walk_local(f.node):
+            if isinstance(n, ast.Call) and isinstance(n.func, ast.Attribute) and n.func.attr in numeric:
+                n_sites += 1
+                par = parent(n)
+                if isinstance(par, ast.BoolOp) and isinstance(par.op, ast.Or) and par.values[0] is n:
+                    ctx.bad("C10.fields", f, enclosing_stmt(n), f"`{norm(par)}`: a stored value of exactly 0 (a neutral metabolite, a zero bound or coefficient) is read as `{norm(par.values[-1])}`")
+                elif isinstance(par, ast.IfExp) and par.test is n:
+                    ctx.bad("C10.fields", f, enclosing_stmt(n), f"`{norm(par)}` tests the number for truth: an explicit 0 takes the other branch")
+                else:
+                    ctx.ok("C10.fields", f, enclosing_stmt(n), f"{n.func.attr}() is used as read", nontrivial=False)
+    if n_sites < 4:
+        raise AnalysisError("C10: numeric getters of the reader not found")
+
+
+def check_import_time_config(ctx) -> None:
+    """No function of the SBML module freezes the configuration at import time: a parameter default is evaluated once,
+    when the module is imported, so `= config.lower_bound` keeps the value the configuration had then."""
+    prog = ctx.prog
+    unit = prog.unit(MOD)
+    n = 0
+    for fn in unit.functions.values():
+        a = fn.node.args
+        for d in list(a.defaults) + [x for x in a.kw_defaults if x is not None]:
+            n += 1
+            names = {x.id for x in ast.walk(d) if isinstance(x, ast.Name)}
+            if names & {"config", "configuration", "Configuration"}:
+                ctx.bad("C10.bounds", fn, fn.node.args, f"the default `{norm(d)}` of {fn.short} is evaluated at import time: after `Configuration().bounds = ...` bounds equal to the old default are written as references to a parameter that holds the new default")
+    ctx.ok("C10.bounds", None, "parameter defaults", f"{n} parameter defaults of io/sbml.py: none reads the configuration at import time", nontrivial=False)
+
+
 def run(ctx) -> None:
     ctx.rule("C10.kinds", "T7: every id crossing the SBML boundary passes the f_replace function of its own kind", floor=22)
     ctx.rule("C10.escape", "T7: escape/unescape functions, regexes and the replacement table agree", floor=9)
@@ -605,6 +662,9 @@ def run(ctx) -> None:
     ctx.rule("C02.owner", "T1: loaded genes/groups belong to the model (shared with C02)", floor=9)
     check_kinds_writer(ctx)
     check_kinds_reader(ctx)
+    ctx.guard(check_replace_defaults, ctx)
+    ctx.guard(check_numeric_getters, ctx)
+    ctx.guard(check_import_time_config, ctx)
     check_escape(ctx)
     check_bounds(ctx)
     check_sign(ctx)
